@@ -96,6 +96,10 @@ class _FuseBatchNormBase(RewriteRuleClassBase, ABC):
         inbound_node = inbound_out.producer()
         batchnorm_node = batchnorm_out.producer()
 
+        if batchnorm_node.attributes.get_int("training_mode", 0) != 0:
+            # In training mode the normalization uses the batch statistics, not input_mean/input_var.
+            return check_result.fail(f"{batchnorm_node.name} is in training mode.")
+
         # Check that inbound weights + (inbound bias) + batchnorm params are initializers
         # and that they are not graph inputs
         initializers = [inbound_node.inputs[1], *batchnorm_node.inputs[1:]]
